@@ -441,3 +441,11 @@ impl From<Type> for u8 {
         kind as u8
     }
 }
+
+#[cfg(feature = "verif")]
+impl<'a> TypeLengthValues<'a> {
+    /// Verification hook (read-only): the iterator's cursor into the section.
+    pub fn verif_cursor(&self) -> usize {
+        self.offset
+    }
+}
